@@ -44,7 +44,7 @@ func runAbort(rep *Report) {
 					break
 				}
 				bound := false
-				if i%3 == 1 && k%3 == 1 {
+				if i%3 == 1 && k%2 == 1 {
 					// aborts on a file whose data area reaches past the limit
 					s.GrowTail(r)
 					if bound = s.SessionBound(r); !bound {
@@ -59,6 +59,16 @@ func runAbort(rep *Report) {
 					how = "fault-commit"
 				}
 				s.AbortProbe(r, p, how)
+				if bound && s.F != nil {
+					// the data area reaches past the session's limit: more failing commits on this state, with and
+					// without frees (a commit that frees nothing merges an empty list into the free list)
+					q := p
+					q.FreePct = 0
+					s.AbortProbe(r, q, "fault-commit")
+					if s.F != nil {
+						s.AbortProbe(r, p, "fault-commit")
+					}
+				}
 			}
 		}
 		s.Finish()
